@@ -32,8 +32,9 @@ def run(v, tier, replay):
     v.cov["expanded_base_behaviours"] = [H.scen_str(b) for b in base]
     ex = H.expand_bytes(base, lens_of, rng, per_field=6, all_bytes=thorough, masks=[0x01, 0x80, 0xff])
     if not thorough and len(ex) > 2000:
-        stale = [e for e in ex if e["hist"][-1]["mv"] == "replay"]
-        rest = [e for e in ex if e["hist"][-1]["mv"] != "replay"]
+        sp = lambda e: e["hist"][e["xk"]]["mv"] == "replay" or e["hist"][e["xk"]].get("cutzero")
+        stale = [e for e in ex if sp(e)]
+        rest = [e for e in ex if not sp(e)]
         rng.shuffle(rest); ex = stale + rest[:2000 - len(stale)]
     rex = H.replay(v, ex, "expand")
     nun += H.judge_expanded(v, "C02", ex, rex)
